@@ -98,7 +98,7 @@ PROPS = {
              "starve-one; quanta of 1-400 yield steps) that can switch between any two statements of the library. Also without a schedule: one instance evaluated 3-10 times in a row with its default variables and explicit sets in a seeded order, and one template rendered under seeded map iteration orders. Non-trivial: at least one context "
              "switch happened while tasks were inside library code (scheduled scenarios) or at least 3 evaluations (sequential ones). Distinct: hash of (scenario, setup, tasks, executed schedule).",
         state_measure="not applicable (no model state: evaluation is compared with the sequential result); see distinct_schedules and distinct_switch_site_pairs",
-        probes=["scenario_shared-calculator", "scenario_shared-template", "scenario_separate", "scenario_map-order-repeat", "map_order_case_colliding", "order_conc_first", "scenario_sequential-repeat"],
+        probes=["scenario_shared-calculator", "scenario_shared-template", "scenario_separate", "scenario_map-order-repeat", "map_order_case_colliding", "order_conc_first", "scenario_sequential-repeat", "variables_edited_between_evaluations"],
         real=["every library package (instrumented copy): calculator, parsers, tokenizers, functions, variables, variants, mustache, csv, io"],
         stub=["none: variable collections and maps are the library's own types filled by the harness"],
         assumptions=["the hand-off between scheduler and tasks is hidden from the race detector with runtime.RaceDisable, so tasks look unsynchronised "
